@@ -184,7 +184,7 @@ def guard_only(r):
 def main():
     drv.build()
     rep = common.Report("C10", "translation_validation")
-    n = 90 if rep.tier == "quick" else 600
+    n = 360 if rep.tier == "quick" else 2400
     fs = ilgen.corpus(4000 + rep.seed, n, profile="mixed", widths=(32, 8), extra=extra_ssa)
     fs += ilgen.corpus(4500 + rep.seed, n // 3, profile="const", widths=(32,), extra=extra_ssa)
     fs += ilgen.corpus(4700 + rep.seed, 6, profile="mixed", widths=(32,), skeletons=["unreachable_pred", "unreachable_block"])
